@@ -4,11 +4,12 @@
 //! cut-over and every lunar month boundary); every route to the pillar / weekday is observed.
 
 use crate::engine::*;
-use crate::props::c01::mk;
+use crate::props::c01::{mk, ymd_of};
 use crate::refmodel::civil::*;
 use crate::refmodel::pillar::*;
 use crate::refmodel::terms::*;
 use tyme4rs::tyme::jd::JulianDay;
+use tyme4rs::tyme::sixtycycle::SixtyCycleDay;
 use tyme4rs::tyme::Culture;
 
 fn check_day(ctx: &Ctx, civ: &Civil, ord: usize, first_term_day: usize, loc: &mut Local) {
@@ -50,6 +51,22 @@ fn check_day(ctx: &Ctx, civ: &Civil, ord: usize, first_term_day: usize, loc: &mu
       Err(m) => ctx.violation("pillar_sixty", fmt_ymd(d), format!("get_sixty_cycle_day panics: {}", m), rp),
     }
   }
+  // two more public routes to the pillar, on every fifth date
+  if ord >= first_term_day && ord % 5 == 0 {
+    loc.transitions += 2;
+    let r = guard(|| {
+      let sd = mk(d);
+      (SixtyCycleDay::from_solar_day(sd).get_sixty_cycle().get_name(), sd.get_lunar_day().get_sixty_cycle_day().get_sixty_cycle().get_name(), ymd_of(&sd.get_sixty_cycle_day().get_solar_day()))
+    });
+    match r {
+      Ok((a, b, back)) => {
+        if a != want_p || b != want_p || back != d {
+          ctx.violation("pillar_route", fmt_ymd(d), format!("SixtyCycleDay::from_solar_day = {}, LunarDay::get_sixty_cycle_day = {}, SixtyCycleDay::get_solar_day = {}; model {} on {}", a, b, fmt_ymd(back), want_p, fmt_ymd(d)), vec!["day".to_string(), d.0.to_string(), d.1.to_string(), d.2.to_string()]);
+        }
+      }
+      Err(m) => ctx.violation("pillar_route", fmt_ymd(d), format!("panics: {}", m), vec!["day".to_string(), d.0.to_string(), d.1.to_string(), d.2.to_string()]),
+    }
+  }
   if d.1 == 1 && d.2 == 1 {
     loc.traces += 1;
   }
@@ -86,7 +103,7 @@ pub fn run(ctx: &Ctx) {
       }
     });
   }
-  ctx.subspace(&format!("civil dates of {} years ({} dates) x 5 routes (lunar-day pillar, sexagenary-day pillar, three weekday routes)", years.len(), n), done, n);
+  ctx.subspace(&format!("civil dates of {} years ({} dates) x 5 routes (lunar-day pillar, sexagenary-day pillar, three weekday routes; on every fifth date also SixtyCycleDay::from_solar_day and LunarDay::get_sixty_cycle_day)", years.len(), n), done, n);
   // quick only: every 11th day of the whole range (11 is coprime to 7 and 60, and shorter than any lunation), so that a
   // lunar month whose first day number is wrong anywhere in 0001..9999 shows up without sweeping all 3.65 M dates
   if ctx.quick() {
